@@ -44,6 +44,14 @@ class World:
 WORLD = None
 
 
+def _key(addr):
+    """endpoint identity: tcp endpoints are identified by their port (bind 'tcp://*:5550' / connect 'tcp://localhost:5550'), everything else by the address text"""
+    if addr is not None and addr.startswith('tcp://'):
+        port = addr.rsplit(':', 1)[-1]
+        if port.isdigit(): return 'tcp:' + port
+    return addr
+
+
 class FakeSocket(Socket):
     def __init__(self, typ):
         self.typ = typ; self.queue = []; self.closed = False; self.subs = []; self.addr = None; self.last_t = {}; self.sent = []; self.hwm = None
@@ -55,8 +63,8 @@ class FakeSocket(Socket):
         if opt == SUBSCRIBE: self.subs.append(s.encode())
 
     def bind(self, addr):
-        if addr in WORLD.binds and not WORLD.binds[addr].closed: raise ZMQError(f'Address already in use: {addr}')
-        WORLD.binds[addr] = self; self.addr = addr
+        if _key(addr) in WORLD.binds and not WORLD.binds[_key(addr)].closed: raise ZMQError(f'Address already in use: {addr}')
+        WORLD.binds[_key(addr)] = self; self.addr = addr
         if addr.startswith('ipc://') and addr[6:]:
             # libzmq's ipc transport: bind() unlinks a stale socket file of that name (left by a killed process) and creates its own
             try:
@@ -68,7 +76,7 @@ class FakeSocket(Socket):
         w = WORLD
         self.up_at = w.now + (w.rng.randint(0, w.sub_connect) if (self.typ == SUB and w.sub_connect and w.rng) else 0)
 
-    def _peer(self): return WORLD.binds.get(self.addr)
+    def _peer(self): return WORLD.binds.get(_key(self.addr))
 
     def send_multipart(self, msg, flags=0):
         w = WORLD
@@ -99,7 +107,7 @@ class FakeSocket(Socket):
     def crash(self):
         """the owning process is killed: the socket is gone, nothing is cleaned up (an ipc:// socket file stays on disk)"""
         self.closed = True
-        if WORLD.binds.get(self.addr) is self: del WORLD.binds[self.addr]
+        if WORLD.binds.get(_key(self.addr)) is self: del WORLD.binds[_key(self.addr)]
 
 
 class Context:
